@@ -20,6 +20,7 @@ RULE = (
     'object holds at call time, distances from the image enumeration.  Non-trivial = at least two jumps, at least '
     'one event into or out of no-site and more than one label; distinct = SHA-1 of (states, sites, labels).'
 )
+RULE += ' Round 14: to_graph thresholds equal to the e_act of an existing edge (inclusive window).'
 RULE += ' Round 12: under default settings the jump matrix is also compared with the moves counted in the state history (C04 model), including atoms that only ever hop directly from site to site (p_direct 0.9 / 1.0 systems).'
 RULE += " Added in rounds 5-10: parts of Jumps.split recounted with the parent's minimal_residence; number of parts checked; sites holding more than one atom on average (loud refusal accepted, other numbers not)."
 ASSUMPTIONS = [
@@ -183,6 +184,15 @@ def check_jumps(tr, j, sys_, occ, ctx, what, wit, rng):
                     Gt = j.to_graph(**kw)
                     want_e = {e for e, v in eacts.items() if keep(v)}
                     ctx.check(set(Gt.edges) == want_e, f'{what}: to_graph({kw}) has edges {sorted(Gt.edges)}, expected those with e_act inside the window: {sorted(want_e)}', wit)
+                # a threshold read back from the graph itself (e.g. max_e_act = the largest value shown): edges AT the
+                # threshold are not "above" / "below" it and stay (documented: reject edges above / below the threshold)
+                thr_x = float(vals[int(rng.integers(len(vals)))])
+                if thr_x != 0:
+                    for kw, keep in (({'max_e_act': thr_x}, lambda v: v <= thr_x), ({'min_e_act': thr_x}, lambda v: v >= thr_x), ({'min_e_act': thr_x, 'max_e_act': thr_x}, lambda v: v == thr_x)):
+                        Gt = j.to_graph(**kw)
+                        want_e = {e for e, v in eacts.items() if keep(v)}
+                        ctx.check(set(Gt.edges) == want_e, f'{what}: to_graph({kw}) with a threshold equal to the e_act of an edge has edges {sorted(Gt.edges)}, expected {sorted(want_e)} (edges at the threshold are kept)', wit)
+                    ctx.count('graph_thresholds_equal_to_an_edge_value')
                 G_again = j.to_graph()
                 ctx.check(set(G_again.edges) == support and all(abs(float(G_again.edges[e]['e_act']) - eacts[e]) <= 1e-12 * max(1, abs(eacts[e])) for e in support), f'{what}: to_graph() after thresholded calls has edges {sorted(G_again.edges)}; the jump matrix has support {sorted(support)}', wit)
                 ctx.count('graph_threshold_histories')
